@@ -285,3 +285,27 @@ _W12_GUARDS = {
 for _gs in (_W9_GUARDS, _W10_GUARDS, _W11_GUARDS, _W12_GUARDS):
     for _p, _g in _gs.items():
         PROPS[_p]["min_probes"]["quick"].update(_g)
+
+# What the fourth build session added to the worlds (DESIGN.md 12.16-12.19), appended to the rule texts of the evidence.
+_RULE_ADDENDA = {
+    "C01": " Since the fourth session: tokens that carry a nonce nobody expects.",
+    "C02": " Since the fourth session: the relying party's key set built with SkipRemoteCheck in half of the named-key worlds; ambiguous kid-less tokens delivered again after a fetch.",
+    "C04": " Since the fourth session: client 'odd' (unnamed auth method with a secret), a second private_key_jwt client, challenges without a method (query and request object), authentication requests by POST, providers built with the public constructors.",
+    "C05": " Since the fourth session: client 'odd', a second private_key_jwt client, foreign callers whose form names the owner, look-alike assertion audiences, subjects with characters that escaping rewrites, tokens used shortly before and after their end.",
+    "C06": " Since the fourth session: key material replaced under the kid in use; a subject with characters that URL escaping rewrites.",
+    "C07": " Since the fourth session: scopes named twice at authorization, wishes of the grant's length with one entry exchanged, foreign callers whose form names the owner, scheduler search strategies (uniform / PCT / starve) in the race groups.",
+    "C08": " Since the fourth session: multi-tenant worlds (a JWT access token presented at another tenant), userinfo token by header / POST form / query, scheduler search strategies in the race groups.",
+    "C09": " Since the fourth session: requests after a fault is over (aftermath) and a pause between history and target in the fault sweeps; the relying party's handlers with the userinfo callback and the device flow with the peer's interval among the client-side cases; fresh codes with verifier anomalies in the server catalogue.",
+    "C10": " Since the fourth session: a seeded pause between warm-up history and target request; optional storage capabilities (userinfo/claims from request, end-session from request, exchange verifier) alternate with the cycle through the flows.",
+    "C11": " Since the fourth session: delivery-mode rule for every decoded response; response type in the other order; registered redirect URIs that repeat a parameter.",
+    "C13": " Since the fourth session: scheduler search strategies (uniform / PCT with seeded priority change points / starve one task); providers that name keys of different types alike; encryption keys published under signing kids.",
+    "C14": " Since the fourth session: every helper family that produces assertions (incl. key-file constructors); a second private_key_jwt client; ClientJWTAuth / AuthorizePrivateJWTKey over an exchanger with the application's delegating verifier.",
+    "C15": " Since the fourth session: the same token presented shortly before and shortly after its end by the same client; actor tokens without their type.",
+    "C16": " Since the fourth session: device form at an absolute address (UserFormURL).",
+    "C17": " Since the fourth session: cookie keys of seeded lengths and near-identical keys of the other application; cookie Domain / SameSite options; the userinfo callback; callback variants 'junk state cookie + no state parameter', 'junk pkce cookie', 'state cookie only'.",
+    "C18": " Since the fourth session: loopback post-logout registrations and port / host / scheme variations.",
+    "C19": " Since the fourth session: endpoints switched off on the LegacyServer (nil entries); providers built with NewOpenIDProvider / NewDynamicOpenIDProvider / NewForwardedOpenIDProvider.",
+    "C20": " Since the fourth session: sibling client-side instances with their own credentials; client side of the device grant; providers for several issuers from one shared configuration value (compared after every step).",
+}
+for _p, _t in _RULE_ADDENDA.items():
+    PROPS[_p]["rule"] = PROPS[_p]["rule"] + _t
